@@ -52,6 +52,9 @@ def spec_valid_sectors(symm, idxs, charge):
 def charge_for(draw, symm, idxs, allow_empty=True):
     """Total charge = signed total of a drawn sector (so >=1 valid sector);
     rarely an arbitrary pool charge (may leave no valid sector)."""
+    if any(not ix["cm"] for ix in idxs):
+        # an index that lost all its charges: no sector exists
+        return G.identity(symm)
     if allow_empty and idxs and draw(st.integers(0, 19)) == 0:
         return draw(st.sampled_from(GEN_POOLS[symm]))
     sec = [draw(st.sampled_from(sorted(ix["cm"]))) for ix in idxs]
